@@ -16,7 +16,7 @@
    below are proved for those histories too (same statements: "timed out" = the attempt's context
    was done, the stored error is context.DeadlineExceeded in that case as well);
    [ants_cancelled_parent_outcome] adds what is specific to them. *)
-From Got Require Import Base Ants AntsProofs AntsCancelProofs.
+From Got Require Import Base Ants AntsProofs AntsCancelProofs AntsGetters AntsGettersProofs.
 Local Open Scope Z_scope.
 
 (* <= R handler invocations per task, each for a distinct attempt number in [1, R]; when the
@@ -420,3 +420,42 @@ Theorem ants_steps_callbacks_never_dropped :
     ata_owner y = AwChan \/ exists i, ata_owner y = AwThread i.
 Proof. exact ast_steps_callbacks_never_dropped. Qed.
 Print Assumptions ants_steps_callbacks_never_dropped.
+
+(* The other entry points of the Task interface (task.go; models/AntsGetters.v): Get1() is Get2() with the
+   error dropped, Err() returns the err field without waiting.  In every reachable state, for every task:
+   a Get1 / Get2 call returns iff run() has returned (wg.Done) or the task was discarded -- so Get1 unblocks
+   exactly when Get2 does --; when they return, Get1 gives the first component of Get2's pair and Err() the
+   second; every read made so far by a waiting call returned that same pair (so the entry points agree with
+   each other and over time); for a discarded task the pair is (nil, errDiscard); and the returning call is
+   the machine's AnGet2 step, which the theorems above speak about. *)
+Theorem ants_getters_agree :
+  forall cfg evs s k,
+    an_fixed cfg -> an_run cfg an_init evs = Some s ->
+    let t := an_tk s k in
+    (an_call_get2 s k <> None <-> at_phase t = AnDone \/ at_phase t = AnDiscarded) /\
+    (an_call_get1 s k <> None <-> an_call_get2 s k <> None) /\
+    (forall p, an_call_get2 s k = Some p ->
+       an_call_get1 s k = Some (fst p) /\ an_call_err s k = snd p /\
+       (forall g, In g (at_get2 t) -> fst g = p) /\
+       (at_phase t = AnDiscarded -> p = (None, AnDiscard)) /\
+       exists s', an_step cfg s (AnGet2 k) = Some s' /\ at_get2 (an_tk s' k) = (p, an_now s) :: at_get2 t).
+Proof. exact ants_getters_agree_l. Qed.
+Print Assumptions ants_getters_agree.
+
+(* Error identity.  The pair decided for an attempt may carry ANY non-nil error value -- an ordinary handler
+   error, but also errors the pool uses itself and a handler returned as its own before the deadline: the
+   discard error obtained from another, busy pool (AnDiscard), context.DeadlineExceeded (AnDeadline),
+   context.Canceled (AnCanceled).  Whatever it is, when the dispatcher takes the pair of attempt a < R from
+   doneChan, the task goes on with attempt a + 1 (result/err hold that pair, nothing is released, no error
+   callback): no error value ends the retry loop early.  (All theorems above quantify over every ab_err too;
+   [at_phase = AnDiscarded], not the error value, is what "rejected as busy" means in ants_discard.) *)
+Theorem ants_any_error_is_retried :
+  forall cfg s k a c v e s',
+    an_fixed cfg ->
+    at_phase (an_tk s k) = AnWait a c -> an_chan_find a (at_chan (an_tk s k)) = Some (v, e) ->
+    an_is_nil e = false -> (a < ao_R (at_opts (an_tk s k)))%nat ->
+    an_step cfg s (AnDecide k true) = Some s' ->
+    at_phase (an_tk s' k) = AnEnq (S a) (an_now s) /\ at_fields (an_tk s' k) = (v, e) /\
+    at_rel (an_tk s' k) = at_rel (an_tk s k) /\ at_onerr (an_tk s' k) = at_onerr (an_tk s k).
+Proof. exact ants_any_error_is_retried_l. Qed.
+Print Assumptions ants_any_error_is_retried.
